@@ -53,7 +53,7 @@ fn seed_strategy() -> impl Strategy<Value = u64> {
         .prop_filter("seed hash must be non-zero", |s| refhash::seed_hash(*s) != 0)
 }
 
-fn case_strategy() -> impl Strategy<Value = Case> {
+pub fn case_strategy() -> impl Strategy<Value = Case> {
     (
         0u8..8,
         1u8..=8,
@@ -438,7 +438,7 @@ fn run_typed<T: Cnt>(c: &Case, info: &mut CaseInfo) -> Result<(), Fail> {
     Ok(())
 }
 
-fn run_case(c: &Case, info: &mut CaseInfo) -> Result<(), Fail> {
+pub fn run_case(c: &Case, info: &mut CaseInfo) -> Result<(), Fail> {
     match c.ty % 8 {
         0 => run_typed::<u8>(c, info),
         1 => run_typed::<u16>(c, info),
